@@ -4,7 +4,7 @@ usage: baseline.py [pkg-pattern ...]   exit 0 iff every stable_pass test in the 
 import json, os, subprocess, sys
 env = dict(os.environ, GOFLAGS='-mod=mod', GOPROXY='off', GOSUMDB='off', GOTOOLCHAIN='local')
 pk = sys.argv[1:] or ['./...']
-p = subprocess.run(['go', 'test', '-json', '-vet=off', '-count=1', '-timeout', '25m'] + pk, cwd='/repo', env=env,
+p = subprocess.run(['go', 'test', '-json', '-vet=off', '-count=1', '-timeout', '25m'] + pk, cwd=os.environ.get('VERIF_REPO', '/repo'), env=env,
                    stdout=subprocess.PIPE, stderr=subprocess.STDOUT, text=True)
 passed, failed = set(), set()
 for line in p.stdout.splitlines():
